@@ -53,6 +53,19 @@ type vc06Env struct {
 	// sigMemo remembers the outcome of a signature verification (pure function of its arguments); the
 	// history search offers the same bytes thousands of times
 	sigMemo map[[32]byte]bool
+	// keysAsOf, when set, replaces the versions table (keys part): the keys the key id denotes in the signer's DID document
+	// as of the referenced transactions, computed from the documents that the present transactions published.
+	// strict: the key is in the document published by one of the referenced transactions themselves; merged: it is only in a
+	// document published by a transaction of the same DID that is CONCURRENT with a referenced one (the DID store merges
+	// parallel versions into one version that names all of them as source transactions) — admitted with a note.
+	// A key may carry a note: the admission is then recorded as an observation, e.g. "kid-liberal-form" for a key id that only
+	// denotes the key after dropping a path / query / second fragment (the statement does not say how key ids are compared).
+	keysAsOf func(m *vc06Model, kid string, prevs []vc06Ref) []vc06KeyAsOf
+}
+
+type vc06KeyAsOf struct {
+	pub  crypto.PublicKey
+	note string // "" = the key id denotes this key in the version published by a referenced transaction itself
 }
 
 func (e *vc06Env) sigOK(alg string, pub crypto.PublicKey, input, sig []byte) bool {
@@ -606,7 +619,7 @@ func (m *vc06Model) check(in vc06Interp, ref vc06Ref, data []byte, payload []byt
 	if len(prevs) == 0 && m.hasRoot() {
 		return "second-root", nil, nil
 	}
-	var pub crypto.PublicKey
+	var pubs []vc06KeyAsOf
 	if hasJWK {
 		k, private, ok := vc06JWKPublic(h["jwk"])
 		if !ok {
@@ -615,22 +628,32 @@ func (m *vc06Model) check(in vc06Interp, ref vc06Ref, data []byte, payload []byt
 		if private {
 			notes = append(notes, "jwk-private-key-embedded")
 		}
-		pub = k
-	} else {
-		pub = m.env.keyAsOf(kid, prevs)
-		if pub == nil {
-			return "kid-denotes-no-key-as-of-prevs", nil, nil
-		}
+		pubs = []vc06KeyAsOf{{pub: k}}
+	} else if m.env.keysAsOf != nil {
+		pubs = m.env.keysAsOf(m, kid, prevs)
+	} else if k := m.env.keyAsOf(kid, prevs); k != nil {
+		pubs = []vc06KeyAsOf{{pub: k}}
 	}
-	verified := false
-	for _, input := range in.inputs {
-		if m.env.sigOK(alg, pub, input, in.sig) {
-			verified = true
+	if len(pubs) == 0 {
+		return "kid-denotes-no-key-as-of-prevs", nil, nil
+	}
+	verified := -1
+	for i, pub := range pubs {
+		for _, input := range in.inputs {
+			if m.env.sigOK(alg, pub.pub, input, in.sig) {
+				verified = i
+				break
+			}
+		}
+		if verified >= 0 {
 			break
 		}
 	}
-	if !verified {
+	if verified < 0 {
 		return "signature-does-not-verify", nil, nil
+	}
+	if pubs[verified].note != "" {
+		notes = append(notes, pubs[verified].note)
 	}
 	if hasPayload {
 		if sha256.Sum256(payload) != ph || !ok {
